@@ -111,6 +111,14 @@ ALL_OPS = sorted(SIG) + list(DYN)
 TEXT_STATE = ("Tc", "Tw", "Tz", "TL", "Tf", "Tr", "Ts")
 COLOUR = ("g", "G", "rg", "RG", "k", "K", "cs", "CS", "sc", "scn", "SC", "SCN")
 POSITION = ("Td", "TD", "Tm", "T*")
+# operators outside the property's list (ISO Tables 57, 59-61, 77, 320, 32): number of operands.  The text model gives
+# them no effect on text state, CTM, colours or glyphs (Spec/TextModel.lean `neutralTable`; C05_unlisted_*).
+NEUTRAL = {"w": 1, "J": 1, "j": 1, "M": 1, "d": 2, "ri": 1, "i": 1, "gs": 1,
+           "m": 2, "l": 2, "c": 6, "v": 4, "y": 4, "h": 0, "re": 4,
+           "S": 0, "s": 0, "f": 0, "F": 0, "f*": 0, "B": 0, "B*": 0, "b": 0, "b*": 0, "n": 0,
+           "W": 0, "W*": 0, "sh": 1, "MP": 1, "DP": 2, "BMC": 1, "BDC": 2, "EMC": 0, "BX": 0, "EX": 0}
+NEUTRAL_IN_TEXT = ("w", "J", "j", "M", "d", "ri", "i", "gs", "MP", "DP", "BMC", "BDC", "EMC", "BX", "EX")
+NEUTRAL_PAGE_ONLY = tuple(k for k in NEUTRAL if k not in NEUTRAL_IN_TEXT)
 SHOW = ("Tj", "TJ", "'", '"')
 DEVICE_CS = {"DeviceGray": 1, "DeviceRGB": 3, "DeviceCMYK": 4}
 CS_POOL = ["CS0", "CS1", "Cs2", "Sp"]          # resource names of colour spaces, shared by all pages / forms / cases
@@ -333,6 +341,18 @@ class Gen:
             if self.wild and rng.random() < 0.2:
                 el.insert(rng.randint(0, len(el)), rng.choice([["/", "x"], ["z"]]))
             return [["a", el]]
+        if op in NEUTRAL:
+            if op == "d":
+                return [["a", [num(rng.randint(0, 6)) for _ in range(rng.randint(0, 3))]], num(rng.randint(0, 4))]
+            if op in ("ri", "gs", "sh", "MP", "BMC"):
+                return [["/", rng.choice(["GS0", "Sh0", "Span", "P", "Perceptual", "F1"])]]
+            if op in ("DP", "BDC"):
+                return [["/", rng.choice(["OC", "P", "Span"])], ["/", rng.choice(["MC0", "Pr1"])]]
+            if op in ("J", "j"):
+                return [num(rng.randint(0, 2))]
+            if op in ("w", "M", "i"):
+                return [num(dy(rng, 0, 12, 4))]
+            return [num(dy(rng, -50, 300, 4)) for _ in range(NEUTRAL[op])]
         if op == "Do":
             xn = list(res["xobjs"])
             name = rng.choice(xn) if xn else "Nox"
@@ -403,7 +423,9 @@ class Gen:
             if self.wild and r < 0.12:
                 op = rng.choice(ALL_OPS + ["xyz", "BX", "EX", "n"])
             elif in_text:
-                if r < 0.42:
+                if rng.random() < 0.1:
+                    op = rng.choice(NEUTRAL_IN_TEXT)
+                elif r < 0.42:
                     op = rng.choice(SHOW)
                 elif r < 0.67:
                     op = rng.choice(POSITION)
@@ -414,7 +436,9 @@ class Gen:
                 else:
                     op = "ET"
             else:
-                if r < 0.3:
+                if rng.random() < 0.16:
+                    op = rng.choice(NEUTRAL_PAGE_ONLY if rng.random() < 0.7 else NEUTRAL_IN_TEXT)
+                elif r < 0.3:
                     op = "BT"
                 elif r < 0.42:
                     op = "q"
@@ -429,7 +453,7 @@ class Gen:
                     op = rng.choice(COLOUR)
                 else:
                     op = "Do" if res["xobjs"] else "BT"
-            if op in SIG or op in DYN:
+            if op in SIG or op in DYN or op in NEUTRAL:
                 args = self.args_for(op, res, st)
             else:
                 args = []
@@ -889,6 +913,16 @@ class SpecMachine:
         return g
 
     def step(self, op, args, g, txt, stack, res, depth):
+        if op in NEUTRAL:
+            # general graphics state, paths, painting, clipping, shading, marked content, BX/EX: nothing of the text
+            # model depends on them; Figure 9 admits only some of them inside a text object
+            if txt is not None and op not in NEUTRAL_IN_TEXT:
+                raise Out("context")
+            if any(a[0] == "b" for a in args):
+                raise Out("boolean operand")
+            if len(args) > NEUTRAL[op]:
+                raise Out("excess operands")
+            return g, txt
         if op not in SIG and op not in DYN:
             raise Out("operator " + op)
         page_ok = op in ("q", "Q", "cm", "Do", "BT") or op in TEXT_STATE or op in COLOUR
@@ -1654,6 +1688,26 @@ def directed_cases() -> List[dict]:
                                                        ["BT", []], ["T*", []], ["Tj", [S("C D")]], ["ET", []], ["Q", []], ["BT", []],
                                                        ["Tj", [S("E")]], ["ET", []]]))}]
     c["name"] = "page-starts-from-a-fresh-state"
+    out.append(c)
+    # text between vector graphics, clipping, marked content and general graphics state operators, some of them
+    # with missing / ill-typed operands: none of them moves, recolours or drops a glyph (C05_unlisted_*)
+    c = json.loads(json.dumps(base))
+    Nm = lambda t: ["/", t]   # noqa: E731
+    c["prog"] = json.loads(json.dumps(
+        [["Tf", [Nm("F1"), N(10)]], ["Tc", [N(1)]], ["q", []], ["re", [N(0), N(0), N(300), N(300)]], ["W", []], ["n", []],
+         ["BMC", [Nm("Span")]], ["w", [N(2)]], ["d", [["a", [N(3), N(1)]], N(0)]], ["J", [N(1)]], ["j", [N(2)]], ["M", [N(4)]],
+         ["ri", [Nm("Perceptual")]], ["i", [N(1)]], ["gs", [Nm("GS0")]],
+         ["BT", []], ["BDC", [Nm("P"), Nm("MC0")]], ["Tm", [N(1), N(0), N(0), N(1), N(20), N(500)]], ["w", [N(7)]],
+         ["Tj", [S("AB")]], ["MP", [Nm("Pt")]], ["DP", [Nm("Pt"), Nm("Pr")]], ["d", [N(1)]], ["Tj", [S("C")]], ["EMC", []],
+         ["BX", []], ["EX", []], ["w", [Nm("x")]], ["ET", []], ["EMC", []],
+         ["m", [N(0), N(0)]], ["l", [N(50), N(50)]], ["c", [N(1), N(2), N(3), N(4), N(5), N(6)]], ["v", [N(1), N(2), N(3), N(4)]],
+         ["y", [N(1), N(2), N(3), N(4)]], ["h", []], ["S", []], ["re", [N(5), N(5)]], ["re", [N(1), N(1), N(-4), N(9)]], ["f*", []],
+         ["m", [N(1), Nm("x")]], ["l", [N(3), N(3)]], ["B", []], ["re", [N(0), N(0), N(1), N(1)]], ["b*", []],
+         ["m", [N(2), N(2)]], ["l", [N(4), N(2)]], ["s", []], ["m", [N(2), N(2)]], ["f", []], ["m", [N(2), N(2)]], ["F", []],
+         ["m", [N(2), N(2)]], ["B*", []], ["m", [N(2), N(2)]], ["l", [N(4), N(8)]], ["b", []], ["W*", []], ["n", []],
+         ["sh", [Nm("Sh0")]], ["l", [["z"], N(2)]], ["Q", []],
+         ["BT", []], ["Td", [N(5), N(6)]], ["Tj", [S("D")]], ["ET", []]]))
+    c["name"] = "text-among-unlisted-operators"
     out.append(c)
     return out
 
